@@ -3,89 +3,21 @@
   off the end of the code: the "panic" promises of `Model/VM.lean` (which stand for Go run-time
   panics in `VM.exec`) are unreachable, for every program, goal and fuel.
 
-  DEFINITIONS AND STATEMENTS in this header section; the proofs follow.
+  The DEFINITIONS (`safe`, `ClauseOK`, `IsPanic`, `ContOK`, `ThunkOK`, `PrOK`, `StOK`) are in
+  `Proofs/ExecSafeDefs.lean`; the STATEMENTS and the theorems are here; the proofs are in
+    `Proofs/ExecSafeCompile.lean`  the compiler emits safe code (`compile_emitted`)
+    `Proofs/ExecSafeBase.lean`     promises and states every step is made of (`callGoal_ok`, `StOK_addClauses`)
+    `Proofs/ExecSafeForce.lean`    the trampoline keeps the invariant (`force_ok`)
+    `Proofs/ExecSafeStep.lean`     one-step preservation by induction on the fuel (`stepOK`)
 -/
-import PrologVerif.Model.VM
+import PrologVerif.Proofs.ExecSafeStep
 namespace PrologVerif.ExecSafe
 open PrologVerif PrologVerif.VM PrologVerif.Promise
-
-/-- abstract shape of an `astack` entry: how many arguments the outer level holds -/
-inductive Shape where
-  | get (rest : Nat)
-  | put (outer : Nat)
-  deriving DecidableEq
-
-def shapeOf : Frame → Shape
-  | .get rest => .get rest.length
-  | .put outer _ => .put outer.length
-
-/-- abstract interpretation of `exec` on the LENGTHS only: is every access in range until the
-    clause exits?  `nvars` = size of the variable table, `nargs` = current length of `args`. -/
-def safe : List Op → Nat → Nat → List Shape → Bool
-  | [], _, _, _ => false
-  | op :: pc, nvars, nargs, st =>
-    match op with
-    | .getConst _ => nargs ≥ 1 && safe pc nvars (nargs - 1) st
-    | .putConst _ => safe pc nvars (nargs + 1) st
-    | .getVar i => i < nvars && nargs ≥ 1 && safe pc nvars (nargs - 1) st
-    | .putVar i => i < nvars && safe pc nvars (nargs + 1) st
-    | .getFunctor _ ar => nargs ≥ 1 && safe pc nvars ar (.get (nargs - 1) :: st)
-    | .putFunctor _ _ => safe pc nvars 0 (.put nargs :: st)
-    | .pop =>
-      match st with
-      | .get r :: st' => safe pc nvars r st'
-      | .put o :: st' => safe pc nvars (o + 1) st'
-      | [] => false
-    | .enter => safe pc nvars nargs st
-    | .call _ _ => safe pc nvars 0 []      -- the continuation restarts with no args and an empty astack
-    | .exit => true
-    | .cut => safe pc nvars nargs st
-    | .getList l => nargs ≥ 1 && safe pc nvars l (.get (nargs - 1) :: st)
-    | .putList _ => safe pc nvars 0 (.put nargs :: st)
-    | .getPartial l => nargs ≥ 1 && safe pc nvars (l + 1) (.get (nargs - 1) :: st)
-    | .putPartial _ => safe pc nvars 0 (.put nargs :: st)
-    | .unsupported _ => true              -- not a panic: reported as "unsupported encoding"
-
-/-- a clause whose code is safe when entered with `arity` arguments -/
-def ClauseOK (c : Clause) : Prop := safe c.code c.vars.length c.arity [] = true
 
 /-- **Statement A**: everything the compiler emits is safe — for every encoding, also for heads that
     are not callable (the compiler still emits safe code; callers reject such clauses) -/
 def CompileSafeStatement : Prop :=
   ∀ (r : Rep) (cs : List Clause), compile r = .ok cs → ∀ c ∈ cs, ClauseOK c
-
-/-- "this promise is the residue of a Go panic inside exec" -/
-def IsPanic (p : Pr) : Prop := ∃ msg, p.err = some (.goErr msg) ∧ msg.startsWith "panic" = true
-
-/-- well-formedness of everything exec can meet -/
-inductive ContOK : Cont → Prop
-  | done : ContOK .done
-  | exec (pc vars cp k) : safe pc vars.length 0 [] = true → ContOK k → ContOK (.exec pc vars cp k)
-  | collect (t mx) : ContOK (.collect t mx)
-  | findallK (t s) : ContOK (.findallK t s)
-  | catchExit (f k) : ContOK k → ContOK (.catchExit f k)
-
-inductive ThunkOK : Thunk → Prop
-  | clause (c args k env parent) : ClauseOK c → args.length = c.arity → ContOK k → ThunkOK (.clause c args k env parent)
-  | afterCut (pc vars k args astack env cp) :
-      safe pc vars.length args.length (astack.map shapeOf) = true → ContOK k →
-      ThunkOK (.afterCut pc vars k args astack env cp)
-  | contK (k env) : ContOK k → ThunkOK (.contK k env)
-  | exitAltSome (f b k env) : ContOK k → ThunkOK (.exitAlt f b (some k) env)
-  | exitAltNone (f b env) : ThunkOK (.exitAlt f b none env)
-  | negate (g k env) : ContOK k → ThunkOK (.negate g k env)
-  | findall (t g i k env) : ContOK k → ThunkOK (.findall t g i k env)
-  | catchBody (g f k env) : ContOK k → ThunkOK (.catchBody g f k env)
-  | unifyK (x y k env) : ContOK k → ThunkOK (.unifyK x y k env)
-  | betweenNext (l u v k env) : ContOK k → ThunkOK (.betweenNext l u v k env)
-  | appendRec (x y z k env) : ContOK k → ThunkOK (.appendRec x y z k env)
-
-def PrOK (p : Pr) : Prop :=
-  (∀ t ∈ p.delayed, ThunkOK t) ∧ (∀ h, p.recover = some h → ContOK h.k) ∧ ¬ IsPanic p
-
-/-- every stored clause is safe and stored under its own name/arity -/
-def StOK (s : St) : Prop :=
-  ∀ f n p, lookupProc s f n = some p → ∀ c ∈ p.clauses, ClauseOK c ∧ c.arity = n
 
 /-- **Statement B** (one-step preservation): from a well-formed configuration, `exec`, `applyCont`,
     `arrive` and calling a thunk return a well-formed promise (in particular NOT a panic residue) and
@@ -108,5 +40,100 @@ def InitialOKStatement : Prop :=
   StOK bootState ∧
   ∀ (goal : Term) (k : Cont) (env : Env) (m : MS), ContOK k → StOK m.user →
     PrOK (callGoal goal k env m).1 ∧ StOK (callGoal goal k env m).2.user
+
+/-- **Statement C** (whole runs): a query run on the bootstrap program extended by any asserted
+    program never ends with the residue of a Go panic, whatever the fuel, the answer limit and the
+    cancellation point -/
+def RunSafeStatement : Prop :=
+  ∀ (fuel : Nat) (prog : List Term) (query : Term) (max : Nat) (cancelAt : Option Nat)
+    (answers : List Term) (msg : String),
+    runQuery fuel prog query max cancelAt = some (answers, .goErr msg) → msg.startsWith "panic" = false
+
+/-! ## the theorems -/
+
+theorem compile_safe : CompileSafeStatement :=
+  fun r cs h c hc => (compile_emitted r cs h c hc).1
+
+theorem exec_safe : ExecSafeStatement :=
+  ⟨fun n pc vars k args astack env cp m p m' h hs hk hm =>
+      (stepOK n).exec pc vars k args astack env cp m hs hk hm p m' h,
+   fun n k env m p m' h hk hm => (stepOK n).applyCont k env m hk hm p m' h,
+   fun n f args k env m p m' h hk hm => (stepOK n).arrive f args k env m hk hm p m' h,
+   fun n t m p m' h ht hm => (stepOK n).evalThunk t m ht hm p m' h⟩
+
+theorem StOK_empty : StOK {} := by
+  intro f n p h
+  simp [lookupProc] at h
+
+theorem StOK_foldl {α : Type} (step : St → α → St) (hstep : ∀ s a, StOK s → StOK (step s a)) :
+    ∀ (l : List α) (s : St), StOK s → StOK (l.foldl step s)
+  | [], _, hs => hs
+  | a :: l, s, hs => StOK_foldl step hstep l (step s a) (hstep s a hs)
+
+/-- loading source clauses with the model's own compiler keeps the state well-formed -/
+theorem StOK_loadClauses (s : St) (ts : List Term) (hs : StOK s) : StOK (loadClauses s ts) := by
+  unfold loadClauses
+  refine StOK_foldl _ ?_ ts s hs
+  intro s t hs
+  split
+  · exact hs
+  · split
+    · rename_i c cs hc
+      exact StOK_addClauses s _ c cs {} false rfl hc hs _
+    · exact hs
+
+theorem initial_ok : InitialOKStatement :=
+  ⟨StOK_loadClauses _ _ StOK_empty, fun goal k env m hk hm => callGoal_ok goal k env m hk hm⟩
+
+/-- the state `runQuery` starts from: the bootstrap program plus the asserted clauses -/
+theorem StOK_assertProgram (s : St) (prog : List Term) (hs : StOK s) :
+    StOK (prog.foldl (fun (s : St) c =>
+      match compile (toRep c) with
+      | .ok (c1 :: cs) =>
+        let old := (lookupProc s c1.name c1.arity).getD { dynamic := true }
+        setProc s c1.name c1.arity { old with clauses := old.clauses ++ (c1 :: cs) }
+      | _ => s) s) := by
+  refine StOK_foldl _ ?_ prog s hs
+  intro s t hs
+  split
+  · rename_i c cs hc
+    exact StOK_addClauses s _ c cs { dynamic := true } false rfl hc hs _
+  · exact hs
+
+theorem StOK_withCancel (s : St) (c : Option Nat) (hs : StOK s) : StOK { s with cancelAt := c } :=
+  StOK_of_procs rfl hs
+
+theorem run_safe : RunSafeStatement := by
+  intro fuel prog query max cancelAt answers msg h
+  unfold runQuery at h
+  have hb : StOK bootState := initial_ok.1
+  generalize bootState = b at h hb
+  simp only [] at h
+  have hst := StOK_assertProgram _ prog (StOK_withCancel _ cancelAt (StOK_loadClauses b [] hb))
+  split at h
+  · cases h
+  · rename_i r m' hf
+    obtain ⟨hp, hm⟩ := callGoal_ok query (.collect query max) [] { user := _ } (.collect _ _) hst
+    obtain ⟨hr, _⟩ := force_ok (sem fuel) (semOK fuel) cancelAt fuel _ _ r m' hf (all1P hp) hm
+    simp only [Option.some.injEq, Prod.mk.injEq] at h
+    obtain ⟨_, h⟩ := h
+    split at h
+    all_goals try cases h
+    have := hr _ rfl
+    cases hs : msg.startsWith "panic" with
+    | false => rfl
+    | true => exact absurd ⟨msg, rfl, hs⟩ this
+
+/-! ## the hypotheses are needed, the conclusions are not vacuous -/
+
+/-- the panic residues of the model do satisfy `IsPanic` -/
+theorem IsPanic_witness : IsPanic (errP (.goErr "panic: args")) :=
+  ⟨_, rfl, by decide +kernel⟩
+
+/-- without `safe` the step theorem fails: code that is not `safe` does panic -/
+theorem exec_needs_safe_witness (m : MS) :
+    safe [.getConst (.atom "a"), .exit] 0 0 [] = false ∧
+    ∃ p, exec 1 [.getConst (.atom "a"), .exit] [] .done [] [] [] 0 m = some (p, m) ∧ IsPanic p :=
+  ⟨by decide, _, by simp only [exec], IsPanic_witness⟩
 
 end PrologVerif.ExecSafe
